@@ -8,8 +8,10 @@
 package main
 
 import (
+	"fmt"
 	"os"
 	"runtime/pprof"
+	"strings"
 
 	"github.com/gotd/td/internal/verif/kit"
 )
@@ -35,16 +37,27 @@ func main() {
 			pprof.StartCPUProfile(f)
 			defer pprof.StopCPUProfile()
 		}
-		n, d, nz, dz := 5, 5, 3, 5
-		if c.Thorough() {
-			n, d, nz, dz = 6, 7, 4, 6
-		}
-		st := exploreBox(c, box, n, d, false)
-		c.Set("box_N", n)
-		c.Set("box_depth_completed", st.MaxDepth)
-		c.Set("box_states", st.States)
-		st = exploreBox(c, boxZero, nz, dz, true)
-		c.Set("box_pos0_states", st.States)
+		// the engine part first: it is the smaller one and must not be starved by the box BFS
 		runEngine(c, eng)
+		type nd struct{ n, d int }
+		boxes, zero := []nd{{5, 5}}, nd{3, 5}
+		if c.Thorough() {
+			boxes, zero = []nd{{5, 6}, {7, 5}}, nd{4, 6}
+		}
+		if v := os.Getenv("VERIF_C01_BOX"); v != "" { // experiments: "N,D;N,D"
+			boxes = nil
+			for _, part := range strings.Split(v, ";") {
+				var x nd
+				fmt.Sscanf(part, "%d,%d", &x.n, &x.d)
+				boxes = append(boxes, x)
+			}
+		}
+		st := exploreBox(c, boxZero, zero.n, zero.d, true)
+		c.Set("box_pos0_states", st.States)
+		for _, b := range boxes {
+			st := exploreBox(c, box, b.n, b.d, false)
+			c.Set(fmt.Sprintf("box_N%d_depth_completed", b.n), st.MaxDepth)
+			c.Set(fmt.Sprintf("box_N%d_states", b.n), st.States)
+		}
 	})
 }
